@@ -48,10 +48,12 @@ def kernels():
         ct = CompositeTransform()
         i0 = ct.uniform_scale(s[0])
         i1 = ct.translate(t)
+        # the object is used while it is being built up: the same questions are asked again after more appends
+        early = (ct.transform_matrix_for(), ct.transform_matrix_for(reverse=True), ct(p), ct(p, reverse=True))
         i2 = ct.non_uniform_scale(f[0], f[1], f[2], allow_flipping=True)
         i3 = ct.flip(1)
         assert (i0, i1, i2, i3) == (0, 1, 2, 3)
-        return _c11._full((ct.transform_matrix_for(), ct.transform_matrix_for(reverse=True),
+        return _c11._full(early + (ct.transform_matrix_for(), ct.transform_matrix_for(reverse=True),
                            ct.transform_matrix_for(from_range=(1, 3)), ct.transform_matrix_for(from_range=(1, 3), reverse=True),
                            ct(p), ct(p, reverse=True), ct(p, from_range=(2, 4), treat_input_as_vector=True),
                            ct(p, from_range=(0, 2), discard_z_coord=True)), p)
@@ -62,7 +64,10 @@ def kernels():
         {"s": [2.0], "t": [0.5, -1.0, 3.0], "f": [1.5, -2.0, 0.5], "p": [1.0, 2.0, -0.5]}, hist1,
         """Lemma {T}_ok : forall {vars} : R, {T}_path ROps {vars} ->
   let st := run_ops ROps %s [] in let P := V3 p0 p1 p2 in
+  let st2 := run_ops ROps [OUniformScale s0 false; OTranslate (V3 t0 t1 t2)] [] in
   {T} ROps {vars} =
+  mlist (transform_matrix_for ROps st2 None false) ++ mlist (transform_matrix_for ROps st2 None true) ++
+  call_single ROps st2 None false false false P ++ call_single ROps st2 None true false false P ++
   mlist (transform_matrix_for ROps st None false) ++ mlist (transform_matrix_for ROps st None true) ++
   mlist (transform_matrix_for ROps st (Some (1, 3)%%Z) false) ++ mlist (transform_matrix_for ROps st (Some (1, 3)%%Z) true) ++
   call_single ROps st None false false false P ++ call_single ROps st None true false false P ++
@@ -187,17 +192,29 @@ def _gen_range(rng, n, wild):
     return [a, rng.randint(a, n)]
 
 
-def gen_queries(rng, n, tier):
-    qs = []
-    ranges = [None] + [_gen_range(rng, n, rng.random() < 0.1) for _ in range(rng.randint(2, 4))]
+def _gen_call(rng, r, as_int=False):
     sc = 2.0 ** rng.randint(-3, 3)
-    for r in ranges:
-        rev = rng.random() < 0.5
-        qs.append({"q": "matrix", "range": r, "rev": rev})
-        qs.append({"q": "matrix", "range": r, "rev": not rev})
+    if as_int:  # integer-dtype point array (integer-valued coordinates)
+        pts = [[float(rng.randint(-9, 9)) for _ in range(3)] for _ in range(rng.randint(1, 3))]
+    else:
         pts = [[x * sc for x in grid_vec(rng)] for _ in range(rng.randint(1, 3))]
-        qs.append({"q": "call", "range": r, "rev": rng.random() < 0.4, "discard": rng.random() < 0.25,
-                   "asvec": rng.random() < 0.3, "points": pts})
+    return {"ev": "query", "q": "call", "range": r, "rev": rng.random() < 0.4, "discard": rng.random() < 0.25,
+            "asvec": rng.random() < 0.3, "points": pts, "int": as_int}
+
+
+def _gen_query(rng, n, r, as_int=False):
+    if rng.random() < 0.45:
+        return {"ev": "query", "q": "matrix", "range": r, "rev": rng.random() < 0.4}
+    return _gen_call(rng, r, as_int)
+
+
+def gen_queries(rng, n, tier):
+    """queries put to the object when it has n steps: the default (all steps) form more often than not, so that the
+    same question is asked again and again while the object grows"""
+    qs = []
+    for _ in range(rng.randint(1, 3)):
+        r = None if rng.random() < 0.6 else _gen_range(rng, n, rng.random() < 0.1)
+        qs.append(_gen_query(rng, n, r, rng.random() < 0.2))
     return qs
 
 
@@ -206,10 +223,23 @@ def gen_cases(rng, n, tier):
     for _ in range(n):
         k = rng.choice([0, 1, 2, 2, 3, 3, 4, 4, 5, 6, 7, 8])
         ops = [_gen_op(rng, tier) for _ in range(k)]
-        n_ok_guess = sum(1 for o in ops if expected_outcome(o, 1.0)[0] == "ok")
-        kinds = sorted(set(o["op"] for o in ops))
+        events, n_ok = [], 0
+        if rng.random() < 0.5:
+            events += gen_queries(rng, 0, tier)  # the empty object is asked too
+        for o in ops:
+            events.append(dict(o, ev="op"))
+            if expected_outcome(o, 1.0)[0] == "ok":
+                n_ok += 1
+            if rng.random() < 0.45:
+                events += gen_queries(rng, n_ok, tier)
+        # at the end: all steps and a few sub-ranges, forward and reverse
+        for r in [None] + [_gen_range(rng, n_ok, rng.random() < 0.1) for _ in range(rng.randint(1, 3))]:
+            rev = rng.random() < 0.5
+            events.append({"ev": "query", "q": "matrix", "range": r, "rev": rev})
+            events.append({"ev": "query", "q": "matrix", "range": r, "rev": not rev})
+            events.append(_gen_call(rng, r, rng.random() < 0.2))
         kind = "empty" if not ops else ("short" if k <= 2 else ("medium" if k <= 5 else "long"))
-        cases.append({"kind": kind, "ops": ops, "queries": gen_queries(rng, n_ok_guess, tier), "methods": kinds})
+        cases.append({"kind": kind, "events": events})
     return cases
 
 
@@ -242,7 +272,7 @@ def run_query(ct, qu):
     if qu["q"] == "matrix":
         m = ct.transform_matrix_for(from_range=rng_, reverse=qu["rev"])
         return {"m": np.asarray(m, dtype=np.float64).reshape(-1).tolist(), "shape": list(np.shape(m))}
-    pts = np.array(qu["points"], dtype=np.float64).reshape(-1, 3)
+    pts = np.array(qu["points"], dtype=np.int64 if qu.get("int") else np.float64).reshape(-1, 3)
     before = pts.copy()
     kw = {"from_range": rng_, "reverse": qu["rev"], "discard_z_coord": qu["discard"], "treat_input_as_vector": qu["asvec"]}
     st = ct(pts, **kw)
@@ -261,21 +291,25 @@ def run_impl(c):
     def go():
         import ounce
         ct = CompositeTransform()
-        results, factors = [], []
-        for o in c["ops"]:
+        obs = []
+        for e in c["events"]:
+            if e["ev"] == "query":
+                ob = run_query(ct, e)
+                ob["n"] = len(ct.transforms)
+                obs.append(ob)
+                continue
             before = len(ct.transforms)
-            r = call_impl(lambda: apply_op(ct, o))
+            r = call_impl(lambda: apply_op(ct, e))
             if isinstance(r, dict) and "raise" in r:
-                results.append(r)
                 if len(ct.transforms) != before:
-                    results[-1]["state_changed"] = True
+                    r["state_changed"] = True
             else:
-                results.append({"index": int(r), "len_before": before, "len_after": len(ct.transforms)})
-            factors.append(float(ounce.factor(o["from"], o["to"])) if o["op"] == "convert_units" else None)
+                r = {"index": int(r), "len_before": before, "len_after": len(ct.transforms)}
+            r["factor"] = float(ounce.factor(e["from"], e["to"])) if e["op"] == "convert_units" else None
+            obs.append(r)
         pairs = [[np.asarray(f, dtype=np.float64).reshape(-1).tolist(), np.asarray(i, dtype=np.float64).reshape(-1).tolist()]
                  for f, i in ct.transforms]
-        queries = [run_query(ct, qu) for qu in c["queries"]]
-        return {"results": results, "factors": factors, "pairs": pairs, "queries": queries}
+        return {"events": obs, "pairs": pairs}
 
     return call_impl(go)
 
@@ -323,17 +357,20 @@ def coq_query(qu, ob):
         coq_list(flv(r) for r in ob["singles"]))
 
 
-BAD_CASE = "CHistory [] [Raise OtherError] [] []"
+BAD_CASE = "CTimeline [EOp (OFlip 0%Z) (Raise OtherError)] []"
 
 
 def coq_case(c, o):
     if isinstance(o, dict) and "raise" in o:
         return BAD_CASE
-    ops = coq_list(coq_op(op, f) for op, f in zip(c["ops"], o["factors"]))
-    res = coq_list(coq_result(r) for r in o["results"])
+    evs = []
+    for e, ob in zip(c["events"], o["events"]):
+        if e["ev"] == "op":
+            evs.append("EOp (%s) %s" % (coq_op(e, ob["factor"]), coq_result(ob)))
+        else:
+            evs.append("EQ (%s)" % coq_query(e, ob))
     pairs = coq_list("(%s, %s)" % (flv(f), flv(i)) for f, i in o["pairs"])
-    qs = coq_list(coq_query(qu, ob) for qu, ob in zip(c["queries"], o["queries"]))
-    return "CHistory %s %s %s %s" % (ops, res, pairs, qs)
+    return "CTimeline %s %s" % (coq_list(evs), pairs)
 
 
 # ---- oracle ---------------------------------------------------------------------------------------------------
@@ -398,8 +435,9 @@ def oracle(c, o):
     # 1. returned indices / rejections
     n = 0
     actions = []
-    for op, r, fac in zip(c["ops"], o["results"], o["factors"]):
-        what, act = expected_outcome(op, fac)
+    op_events = [(e, ob) for e, ob in zip(c["events"], o["events"]) if e["ev"] == "op"]
+    for op, r in op_events:
+        what, act = expected_outcome(op, r["factor"])
         if "raise" in r:
             if r.get("state_changed"):
                 return "%s raised %s but still changed the list of transforms" % (op["op"], r["raise"])
@@ -433,7 +471,15 @@ def oracle(c, o):
             if any(abs(a - b) > TOL * max(1, abs(a)) for a, b in zip(want, got)):
                 return "step %d (%s): forward matrix does not perform the documented action" % (i, op["op"])
     # 3. queries
-    for qu, ob in zip(c["queries"], o["queries"]):
+    n_final, n_seen = n, 0
+    for qu, ob in zip(c["events"], o["events"]):
+        if qu["ev"] == "op":
+            n_seen += 0 if "raise" in ob else 1
+            continue
+        # the object as it was when the question was asked: the first n_seen accepted steps
+        n = n_seen
+        if ob["n"] != n:
+            return "query saw %d transforms after %d accepted calls" % (ob["n"], n)
         r = qu["range"]
         if not _in_domain(n, r):
             continue
@@ -466,8 +512,8 @@ def oracle(c, o):
                 cur = _apply(m, cur, w)
             got = _F(ob["full"][j])
             if any(abs(a - b) > TOL * mag * pm for a, b in zip(cur, got)):
-                return ("__call__(from_range=%r, reverse=%r, vector=%r) differs from applying the selected steps one after another"
-                        % (r, qu["rev"], qu["asvec"]))
+                return ("__call__(from_range=%r, reverse=%r, vector=%r, %s points) with %d steps appended differs from applying the "
+                        "selected steps one after another" % (r, qu["rev"], qu["asvec"], "int64" if qu.get("int") else "float64", n))
             if ob["stack"][j] != ob["full"][j][:ncol]:
                 return "discard_z_coord does not just drop the third coordinate"
             if ob["single_shapes"][j] != [ncol] or any(abs(Fr(a) - Fr(b)) > TOL * mag * pm for a, b in zip(ob["singles"][j], ob["stack"][j])):
